@@ -266,7 +266,19 @@ def m2_rows(run, project, L):
         attrs = [TypeRef("mask", attrs={"_value": m_, "_name": nm, "_details": None}) for nm, m_ in masks]
         word = TypeRef(k, attrs={"_value": SymVec.unknown(width), "_int_size": size, "attributes": lambda attrs=attrs: list(attrs)})
         event = TypeRef("event", attrs={"value": word, "path": P(()), "type": TypeRef(k)})
-        it = Interp({"format": lambda *a: ("row",) + tuple(a), "PathNode": lambda name=None, **kw: ("node", name if name is not None else kw.get("name"))},
+        fmt_fn = mod.functions().get("format")
+        fpar = [a_.arg for a_ in fmt_fn.args.args] if fmt_fn is not None else ["tpm_type", "path", "binary", "value"]
+        fdefs = {}
+        if fmt_fn is not None:
+            for nm_, d_ in zip(fpar[len(fpar) - len(fmt_fn.args.defaults):], fmt_fn.args.defaults):
+                fdefs[nm_] = d_.value if isinstance(d_, ast.Constant) else None
+
+        def fake_format(*a, _fpar=fpar, _fdefs=fdefs, **kw):
+            vals = dict(_fdefs)
+            vals.update(dict(zip(_fpar, a)))
+            vals.update(kw)
+            return ("row",) + tuple(vals.get(x) for x in _fpar)
+        it = Interp({"format": fake_format, "PathNode": lambda name=None, **kw: ("node", name if name is not None else kw.get("name"))},
                     module_tree=mod.tree, max_steps=400000)
         try:
             it.call(f, [event])
